@@ -29,6 +29,7 @@ KEY_COLLECT = "C17-generateSequences-leaves-collector-armed"
 KEY_DICTHDR = "C17-validation-counts-dictionary-header"
 KEY_SESSION = "C17-compressSequences-leaves-session-open"
 KEY_FALLBACK_REP = "C17-producer-fallback-stale-third-repcode"
+KEY_GEN_LDM3 = "C17-generateSequences-ldm-opt-matchlength-below-minmatch"
 INVALID = "External_sequences_are_not_valid"
 PRODFAIL = "Block-level_external_sequence_producer_returned_an_error_code"
 
@@ -850,6 +851,12 @@ def judge_q(env, c, rres, mout):
                 why = "refused with " + real[1]
                 if c["dictmode"] == "prefix" and ap["val"]:
                     key = KEY_PREFIX
+                elif (c.get("origin", "").startswith("generateSequences") and ap["val"] and c.get("gen_ldm_opt")
+                      and any(q[0] and q[2] < lower for q in c["seqs"])):
+                    # (round 3) the library's own parse contains a match below what ZSTD_validateSequence asks for the same parameters
+                    key = KEY_GEN_LDM3
+                    why += " (ZSTD_generateSequences with long-distance matching and an optimal-parser strategy returned matchLength %d, applied minMatch %d)" % (
+                        min(q[2] for q in c["seqs"] if q[0]), ap["mm"])
                 else:
                     key = finding_key("OK")
             elif real[3] != "d=ok":
@@ -1074,6 +1081,62 @@ def derive_corruptions(rng, cases, per_case, idbase):
 # --------------------------------------------------------------------------------------------------
 # ZSTD_generateSequences / ZSTD_mergeBlockDelimiters
 
+def _lz_source(rng, n):
+    """source with LZ structure: literal runs over a small alphabet and copies at repeat / near / far offsets"""
+    x = bytearray()
+    rep = [1, 4, 8]
+    alpha = rng.choice([4, 40, 256])
+    while len(x) < n:
+        if not x or rng.random() < 0.35:
+            x += bytes(rng.randrange(alpha) for _ in range(rng.randint(1, 12)))
+        else:
+            c = rng.randrange(10)
+            off = rep[rng.randrange(3)] if c < 4 else (rep[0] + 1 if c < 5 else (rng.randint(1, 32) if c < 7 else rng.randint(1, len(x))))
+            off = min(max(off, 1), len(x))
+            ln = rng.randint(3, 600) if rng.random() < 0.2 else rng.randint(3, 14)
+            for _ in range(ln):
+                x.append(x[len(x) - off])
+            if off != rep[0]:
+                rep = [off, rep[0], rep[1]]
+    return bytes(x[:n])
+
+
+# 1743 bytes on which ZSTD_generateSequences (windowLog 10, btultra, long-distance matching with ldmMinMatch 4 / ldmHashLog 6, applied
+# minMatch 4) returns {off 27, ll 0, ml 3} as entry 20 of its second block (found by build/wip/C17r3/hunt.c, minimised by min1.py)
+LDM3_WITNESS_HEX = (
+    "020201000303000303000301030003010300030103000103020202020202020202020202020202020202020202020203000300000301020202020203"
+    "000300000301020202020203000300000301020202020203000300000301020202020203000300000301020202020203000300000301020202020203"
+    "000300000301020202020203000300000301020202020203000300000301020202020203000300000301020202020203000300000301020202020203"
+    "000300000301020202020203000300000301020202020203000300000301020202020203000300000301020202020203000300000301020202020203"
+    "000300000301020202020203000300000301020202020203000300000301020202020203000300000301020202020203000300000301020202020203"
+    "000300000301020202020203000300000301020202020203000300000301020202020203000300000301020202020203000300000301020202020203"
+    "000300000301020202020203000300000301020202020203000300000301020202020203000300000301020202020203000300000301020202020203"
+    "000300000301020202020203000300000301020202020203000300000301020202020203000300000301020202020203000300000301020202030102"
+    "020202020300030000030202030003000003020203000300000302020300030000030202030003000003020203000300000302020300030000030202"
+    "030003000003020203000300000302020300030000030202030003000003020203000300000302020300030000030202030003000003020203000300"
+    "000302020300030000030202030003000003020203000300000302020300030000030202030003000003020203000300000302020300030000030202"
+    "030003000003020203000300000302020300030000030202030003000003020203000300000302020300030000030202030003000003020203000300"
+    "000302020300030000030202030003000003020203000300000302020300030000030202030003000003020203000300000302020300030000030202"
+    "030003000003020203000300000302020300030000030202030003000003020203000300000302020203000302030302030201030300000300000302"
+    "020300030000030202020300030203030203020103030000030000030202030003000003020202030003020303020302010303000003000003020203"
+    "000300000302020203000302030302030201030300000300000302020300030000030202020300030203030203020103030000030000030202030003"
+    "000003020202030003020303020302010303000003000003020203000300000302020203000302030302030201030300000300000302020300030000"
+    "030202020300030203030203020103030000030000030202030003000003020202030003020303020302010303000003000003020203000300000302"
+    "020203000302030302030201030300000300000302020300030000030202020300030203030203020103030000030000030202030003000003020202"
+    "030003020303020302010303000003000003020203000300000302020203000302030302030201030300000300000302020300030000030202020300"
+    "030203030203020103030000030000030202030003000003020202030003020303020302010303000003000003020203000300000302020203000302"
+    "030302030201030300000300000302020300030000030202020300030203030203020103030000030000030202030003000003020202030003020303"
+    "020302010303000003000003020203000300000302020203000302030302030201030300000300000302020300030000030202020300030203030203"
+    "020103030000030000030202030003000003020202030003020303020302010303000003000003020203000002020201020001000100000300010200"
+    "020100000300010200020100000300010200020100000300010200020100000300010200020100000300010200020100000300010200020100000300"
+    "010200020100000300010200020100000300010200020100000300010200020100000300010200020100000300010200020100000300010200020100"
+    "000300010200020100000300010200020100000300010200020100000300010200020100000300010200020100000300010200020100000300010200"
+    "020100000300010200020100000300010200020100000001020002010103020302030001020202030001000203020201020303000103020201010002"
+    "030001020103020201010101000201010101020000000300010303010002030003030302000303020302020200030102030002020303020101020302"
+    "000200"
+)
+
+
 def run_generate(env, rng, n):
     ctx = env.ctx
     gens = []
@@ -1088,11 +1151,37 @@ def run_generate(env, rng, n):
             p["maxBlockSize"] = rng.choice([1024, 4096, 65536])
         if rng.random() < 0.3:
             p["blockSplitter"] = rng.choice([1, 2])
-        gens.append(dict(id="g%d" % i, x=x, params=p, kind=kind))
+        gens.append(dict(id="g%d" % i, x=x, params=p, kind=kind, dict=b"", dictmode="-"))
+    # (round 3) long-distance matching, strategy overrides and raw-content dictionaries: the parse ZSTD_generateSequences
+    # returns must be accepted back by ZSTD_compressSequences with the same parameters, validation on and off
+    nx = max(8, n // 2) if env.ctx.quick else n
+    for i in range(nx):
+        kind = rng.choice(["text", "rep3", "selfcopy", "mixed", "lowent", "longdist", "lz"])
+        size = rng.choice([700, 1800, 5000, 5000, 20000]) + rng.randint(0, 40)
+        x = _lz_source(rng, size) if kind == "lz" else codec.gen_input(rng, kind, size)
+        p = {"level": rng.choice([1, 3, 3, 5, 7]), "windowLog": rng.choice([10, 10, 12, 17, 20])}
+        if rng.random() < 0.5:
+            p["minMatch"] = rng.choice([3, 4, 5, 6, 7])
+        if rng.random() < 0.7:
+            p["strategy"] = rng.choice([1, 2, 3, 4, 5, 6, 7, 8, 9, 7, 8, 9])
+        ldm = rng.random() < 0.7
+        if ldm:
+            p.update(ldm=1, ldmMinMatch=rng.choice([4, 4, 4, 5, 8, 16]), ldmHashLog=rng.choice([6, 6, 7, 10]), ldmHashRateLog=rng.choice([0, 0, 1, 2]))
+        if rng.random() < 0.4:
+            p["maxBlockSize"] = rng.choice([1024, 2048, 4096])
+        if rng.random() < 0.3:
+            p["chainLog"] = rng.choice([6, 10])
+        dm = rng.choice(["-", "-", "load", "cdict"])
+        d = gen_dict(rng, x, rng.choice([60, 300, 3000])) if dm != "-" else b""
+        gens.append(dict(id="gx%d" % i, x=x, params=p, kind=kind, dict=d, dictmode=dm, ldm_opt=bool(ldm)))
+    # directed: the minimised witness of finding KEY_GEN_LDM3 (btultra + LDM, applied minMatch 4: entry {off 27, ll 0, ml 3})
+    gens.append(dict(id="gw0", x=bytes.fromhex(LDM3_WITNESS_HEX), params={"windowLog": 10, "strategy": 8, "ldm": 1, "ldmMinMatch": 4, "ldmHashLog": 6},
+                     kind="witness", dict=b"", dictmode="-", ldm_opt=True))
     lines = []
     for g in gens:
-        lines.append("G %s %s - - %s 0 0" % (g["id"], codec.params_str(g["params"]), codec.hx(g["x"])))
-        lines.append("G %sm %s - - %s 1 0" % (g["id"], codec.params_str(g["params"]), codec.hx(g["x"])))
+        dh = codec.hx(g["dict"]) if g["dictmode"] != "-" else "-"
+        lines.append("G %s %s %s %s %s 0 0" % (g["id"], codec.params_str(g["params"]), g["dictmode"], dh, codec.hx(g["x"])))
+        lines.append("G %sm %s %s %s %s 1 0" % (g["id"], codec.params_str(g["params"]), g["dictmode"], dh, codec.hx(g["x"])))
     out, crashes = env.impl(lines)
     for i, rc, err in crashes:
         env.report(dict(kind="generateSequences", id=i, stderr=err[-800:]), what="c17_seq crashed in ZSTD_generateSequences: %s" % err[-300:].replace("\n", " "))
@@ -1112,7 +1201,7 @@ def run_generate(env, rng, n):
         g["full"], g["merged"] = s3, m3
         W = 1 << ap["wl"]
         # (validated per run) the library's own extracted sequences are a valid parse of x
-        bad = check_parse(g["x"], b"", W, merge_py(s3), 3)
+        bad = check_parse(g["x"], g["dict"], W, merge_py(s3), 3)
         tot = sum(l + m for o, l, m in s3)
         if bad or tot != len(g["x"]):
             env.report(dict(kind="generateSequences", params=g["params"], input_hex=g["x"].hex()[:200000], seqs=seqs_str(s3)[:100000], problem=bad or "lengths sum to %d" % tot),
@@ -1130,8 +1219,12 @@ def run_generate(env, rng, n):
                 p.update(blockDelimiters=delims, validateSequences=val)
                 if rng.random() < 0.5:
                     p["extRepSearch"] = rng.choice([1, 2])
-                qcases.append(dict(id="%s_%d%d" % (g["id"], delims, val), x=g["x"], params=p, delims=delims, dict=b"", dictmode="-",
-                                   seqs=lst, expect="valid", origin="generateSequences" + ("+merge" if not delims else ""), kind=g["kind"]))
+                p.pop("ldm", None)          # long-distance matching plays no part in ZSTD_compressSequences; the other parameters stay
+                for k in ("ldmMinMatch", "ldmHashLog", "ldmHashRateLog"):
+                    p.pop(k, None)
+                qcases.append(dict(id="%s_%d%d" % (g["id"], delims, val), x=g["x"], params=p, delims=delims, dict=g["dict"], dictmode=g["dictmode"],
+                                   seqs=lst, expect="valid", origin="generateSequences" + ("+merge" if not delims else ""), kind=g["kind"],
+                                   gen_ldm_opt=g.get("ldm_opt", False)))
     mout = env.model(mlines)
     for g in gens:
         if "full" in g and g["id"] in mout:
@@ -1147,8 +1240,9 @@ def run_generate(env, rng, n):
     for g in gens:
         if "full" in g and len(g["full"]) >= 2:
             k = len(g["full"])
-            clines.append("G %sx %s - - %s 0 %d" % (g["id"], codec.params_str(g["params"]), codec.hx(g["x"]), k))
-            clines.append("G %sy %s - - %s 0 %d" % (g["id"], codec.params_str(g["params"]), codec.hx(g["x"]), k - 1))
+            dh = codec.hx(g["dict"]) if g["dictmode"] != "-" else "-"
+            clines.append("G %sx %s %s %s %s 0 %d" % (g["id"], codec.params_str(g["params"]), g["dictmode"], dh, codec.hx(g["x"]), k))
+            clines.append("G %sy %s %s %s %s 0 %d" % (g["id"], codec.params_str(g["params"]), g["dictmode"], dh, codec.hx(g["x"]), k - 1))
     cout, ccr = env.impl(clines)
     for i, rc, err in ccr:
         env.report(dict(kind="generateSequences", id=i, stderr=err[-800:]), what="c17_seq crashed in ZSTD_generateSequences with a small output array: %s" % err[-300:].replace("\n", " "))
@@ -1608,6 +1702,157 @@ def producer_many_short(env, rng):
             env.ctx.count(("producer-splitter", nseq > 10000, p["validateSequences"], p.get("maxBlockSize", 0)), nontrivial=True)
 
 
+def offcode_of(off, ll, bitlen, hist):
+    """offset code (offBase) of a decoded sequence from R's trace: resolved offset + bit length of the code + decoder history"""
+    if bitlen >= 2:
+        return off + 3 if (off + 3).bit_length() - 1 == bitlen else None
+    for ob in (1, 2, 3):
+        if ob.bit_length() - 1 == bitlen:
+            r = resolve(ob, ll, hist)
+            if r and r[0] == off:
+                return ob
+    return None
+
+
+def producer_frame_line(env, cid, ap, fb, calls, plan, blocks):
+    """(round 3) one PF line for the extracted producer_frame_fb: the whole frame, blocks that fell back to the internal parser
+    included (their seqStore is read off R's trace; the history kept after them is the model's fallback_history).
+    blocks = R's trace blocks of >= 7 bytes, aligned with the producer calls.  Returns (line, histories) or None."""
+    hist = (1, 4, 8)
+    hists, parts, dec = [], [], ""
+    for k, ((srcsz, cap, wsz), b) in enumerate(zip(calls, blocks)):
+        if k >= len(plan):
+            kind, seqs, ret = "ret", [], (1 << 64) - 1
+        else:
+            kind, seqs, ret = plan[k][:3]
+        if kind == "seqs":
+            nb, buf = min(len(seqs), cap), seqs[:cap]
+        elif kind == "cap+":
+            nb, buf = cap + ret, []
+        else:
+            nb, buf = ret, []
+        if nb >= (1 << 62):
+            nb = cap + 1
+        hists.append(hist)
+        stored, lastll = "-", 0
+        if b["type"] == 2:
+            st, h = [], hist
+            for ll, ml, off, ofc in (b["seqs"] or []):
+                ob = offcode_of(off, ll, ofc, h)
+                if ob is None:
+                    return None
+                st.append("%d.%d.%d" % (ll, ml, ob))
+                h = resolve(ob, ll, h)[1]
+            stored = ";".join(st) if st else "-"
+            lastll = b["rsize"] - sum(q[0] + q[1] for q in (b["seqs"] or []))
+            hist = h
+            dec += "1"
+        else:
+            dec += "0"
+        parts.append("%d/%d/%d/%s/%s/%d" % (nb, cap, srcsz, seqs_str(buf), stored, lastll))
+    line = "PF %s~f %d %d %d 0 %d %d %d %d 1 %d 1.4.8 %s %s" % (
+        cid, ap["wl"], ap["mm"], ap["val"], ap["maxnb"], 1 if env.fixed else 0, 1 if ap["ers"] == 1 else 0, fb,
+        1 if getattr(env, "prodpos_fixed", False) else 0, dec or "-", "|".join(parts) if parts else "-")
+    return line, hists
+
+
+def judge_producer_frame(env, cid, rp, mline, hists, blocks):
+    """frame accepted by the real code and decoded by R: the model's frame (history threaded by the model itself, through
+    producer blocks, fallback blocks and uncommitted blocks) must show the same codes in every compressed block"""
+    ctx = env.ctx
+    mod = parse_model_blocks(mline)
+    if mod[0] != "OK":
+        env.report(dict(rp, model=str(mod)[:200]), what="correspondence (producer frame): compress2 accepted the frame, the model of the whole frame says %s %s" % (mod[0], mod[1]))
+        return False
+    if len(mod[1]) != len(blocks):
+        env.report(dict(rp, model_blocks=len(mod[1]), blocks=len(blocks)), what="correspondence (producer frame): %d blocks in the model, %d in the frame" % (len(mod[1]), len(blocks)))
+        return False
+    for k, (mb, b) in enumerate(zip(mod[1], blocks)):
+        nfb = sum(1 for j in (rp.get("fallback_blocks") or []) if j < k)
+        if mb["rep"] != tuple(hists[k]):
+            env.report(dict(rp, block=k, model_history=mb["rep"], decoder_history=hists[k]),
+                       what="correspondence (producer frame): at block %d the model's context history is %s, the decoder's history (R's trace) is %s"
+                            % (k, mb["rep"], tuple(hists[k])))
+            return False
+        if b["type"] != 2:
+            continue
+        exp, h = [], mb["rep"]
+        for ll, ml, ob in mb["seqs"]:
+            r = resolve(ob, ll, h)
+            if r is None:
+                exp = None
+                break
+            exp.append((ll, ml, r[0], ob.bit_length() - 1))
+            h = r[1]
+        got = [tuple(g) for g in (b["seqs"] or [])]
+        if exp is not None and got != exp:
+            j = next((i for i, (g, e) in enumerate(zip(got, exp)) if g != e), min(len(got), len(exp)))
+            env.report(dict(rp, block=k, got=got[j:j + 3], model=exp[j:j + 3], history=mb["rep"]),
+                       key=KEY_FALLBACK_REP if nfb else None,
+                       what="correspondence (producer frame): block %d sequence %d: frame %s, model of the whole frame %s (history at block start %s%s)"
+                            % (k, j, got[j:j + 1], exp[j:j + 1], mb["rep"], "; a block before it fell back to the internal parser" if nfb else ""))
+            return False
+    ctx.cov["traces_validated_against_impl"] += 1
+    return True
+
+
+def producer_splitter_adversarial(env, rng):
+    """(round 3) the block splitter and the super-block writer driven by a producer whose answers are valid parses built to make
+    the splitter cut as often as it can (harness command X, the scenario family of C06's c06_r2; regression shapes of fix: 3960417
+    [1 KiB blocks whose two halves both end up raw: 6 bytes of expansion where ZSTD_compressBound pays 4] and fix: 65eb70d [39000
+    sequences whose halves differ at every level of the recursion: 197 split points for a table of 196]).  Destination of exactly
+    ZSTD_compressBound(n) bytes: the call must succeed, decode to the source (dictionary of 2^26 bytes), use at most one wire block per
+    full KiB of a source block, and the split table derived again for the block must stay inside ZSTD_MAX_NB_BLOCK_SPLITS entries."""
+    fam = [(1024, 128, 1, 24, 25, 100, 1, 0), (1100, 60, 1, 24, 25, 100, 1, 0), (2048, 32, 2, 24, 25, 100, 1, 0), (4096, 24, 3, 23, 25, 100, 1, 0),
+           (131072, 1, 9, 2, 25, 92, 1, 0), (131072, 1, 9, 2, 25, 100, 1, 0), (131072, 1, 8, 2, 25, 89, 1, 0), (131072, 2, 8, 22, 25, 100, 1, 0),
+           (1024, 64, 1, 24, 25, 100, 1, 1340), (4096, 16, 3, 20, 25, 100, 0, 1340), (1024, 64, 1, 24, 25, 100, 2, 0)]
+    for _ in range(4 if env.ctx.quick else 40):
+        B = rng.choice([1024, 1025, 1279, 1535, 1536, 2047, 3000, 4096, 8192, 32768, 131072])
+        depth = rng.randint(1, 8) if B >= 4096 else rng.randint(1, 2)
+        hi = 25 - (rng.randrange(4) if rng.random() < 0.3 else 0)
+        lo = max(2, hi - rng.randrange(4) - (4 + rng.randrange(12) if depth > 3 else 0))
+        fam.append((B, max(1, (B if B >= 32768 else rng.randint(20000, 120000)) // B), depth, lo, hi, rng.choice([100, 100, 60 + rng.randrange(41)]),
+                    rng.choice([1, 1, 1, 1, 0]), rng.choice([0, 0, 0, 1340 + rng.randrange(3000)])))
+    lines, meta = [], {}
+    for j, (B, nb, depth, lo, hi, dens, split, tcbs) in enumerate(fam):
+        val = 1 if j % 3 else 0
+        i = "xs%d" % j
+        meta[i] = dict(kind="producer-splitter-adversarial", B=B, nblocks=nb, seed=env.ctx.seed, depth=depth, codeLo=lo, codeHi=hi, density=dens, split=split,
+                       targetCBlockSize=tcbs, validateSequences=val,
+                       command="X %s %d %d %d %d %d %d %d %d %d %d" % (i, B, nb, env.ctx.seed, depth, lo, hi, dens, split, tcbs, val))
+        lines.append(meta[i]["command"])
+    out, crashes = run_lines(env.exe, lines, nproc=2)
+    for i, rc, err in crashes:
+        env.report(dict(meta.get(i, {}), rc=rc, stderr=str(err)[-600:]),
+                   what="ZSTD_compress2 with a producer driving the block splitter crashed (status %s): %s" % (rc, str(err)[-200:].replace("\n", " ")))
+    for i, m in meta.items():
+        r = out.get(i)
+        if r is None:
+            continue
+        t = r.split(" ")
+        kv = dict(q.split("=", 1) for q in t[1:] if "=" in q)
+        if t[0] != "OK":
+            env.report(dict(m, result=r[:200]), what="ZSTD_compress2 into ZSTD_compressBound(%d) bytes with a producer giving valid parses (B=%d, block splitter %s, "
+                       "targetCBlockSize %d): %s" % (m["B"] * m["nblocks"], m["B"], {0: "auto", 1: "on", 2: "off"}[m["split"]], m["targetCBlockSize"], " ".join(t[:2])))
+            continue
+        perblock = max(1, m["B"] >> 10)
+        problems = []
+        if kv.get("d") != "ok":
+            problems.append("frame does not decode to the source (%s)" % kv.get("d"))
+        if int(kv["csize"]) > int(kv["bound"]):
+            problems.append("frame of %s bytes exceeds ZSTD_compressBound = %s" % (kv["csize"], kv["bound"]))
+        if not m["targetCBlockSize"] and int(kv["blocks"]) > m["nblocks"] * perblock:
+            problems.append("%s wire blocks for %d source blocks of %d bytes (more than one per full KiB)" % (kv["blocks"], m["nblocks"], m["B"]))
+        if "over" in kv and (int(kv["over"]) or int(kv["splits"]) + 1 > int(kv["limit"])):
+            problems.append("ZSTD_deriveBlockSplits left %s split points (+ terminator) in a table of %s entries, %s entries written beyond it (%s sequences)"
+                            % (kv["splits"], kv["limit"], kv["over"], kv.get("nbseq")))
+        if problems:
+            env.report(dict(m, result=r[:300]), what="producer + block splitter: " + "; ".join(problems))
+        else:
+            env.ctx.count(("producer-splitter-adversarial", min(m["B"] >> 10, 128), m["split"], m["targetCBlockSize"] != 0, int(kv["raw"]) == int(kv["blocks"]),
+                           int(kv["blocks"]) > m["nblocks"], min(int(kv.get("splits", 0)) // 64, 3)), nontrivial=True)
+
+
 def producer_fallback_history(env, rng, n):
     """a block that falls back to the internal parser between two producer blocks: the internal parsers below btopt keep two
     repeat offsets only, the copier of the next producer block consults three.  Block 0 (producer) leaves the history
@@ -1646,6 +1891,7 @@ def producer_fallback_history(env, rng, n):
     for i, rc, err in crashes:
         p, sc, x, info = meta.get(i, ({}, "", b"", None))
         env.report(dict(kind="producer", params=p, script=sc, input_hex=x.hex(), rc=rc, stderr=str(err)[-400:]), what="producer/fallback/producer frame crashed: %s" % str(err)[-200:].replace("\n", " "))
+    okframes = []
     for i, (p, sc, x, info) in meta.items():
         r = out.get(i)
         if r is None:
@@ -1653,6 +1899,7 @@ def producer_fallback_history(env, rng, n):
         t = r.split(" ")
         if t[0] == "OK" and "d=ok" in t:
             env.ctx.count(("producer-fallback-history", p["level"] >= 12, p["validateSequences"]), nontrivial=True)
+            okframes.append((i, p, sc, x, t))
         elif t[0] == "ERR" and p["validateSequences"] and not getattr(env, "prodpos_fixed", True):
             env.ctx.count(("producer-fallback-history", "refused-by-position-finding"), nontrivial=False)
         else:
@@ -1662,6 +1909,31 @@ def producer_fallback_history(env, rng, n):
                             "period %d, third block uses offset %d): %s - the internal parser leaves its third repeat offset stale and the copier of the next producer "
                             "block codes an offset against it" % (info[:3], info[3], info[4], "frame decodes to OTHER bytes (%s)" % [q for q in t if q.startswith("d=")]
                                                                    if t[0] == "OK" else " ".join(t[:2])))
+
+    # (round 3) the same frames through the model of the whole frame (producer_frame_fb): block 1 is the internal parser's
+    mres = env.codec().model([(i, "seqs", None, codec.unhx(t[1])) for i, p, sc, x, t in okframes]) if okframes else {}
+    flines, fmeta = [], {}
+    for i, p, sc, x, t in okframes:
+        m = mres.get(i)
+        if not m or m[0] != "OK":
+            continue
+        fr = codec.parse_trace(m[2])
+        if len(fr) != 1 or fr[0]["kind"] != "zstd":
+            continue
+        blocks = [b for b in fr[0]["blocks"] if b["rsize"] >= 7]
+        calls = [tuple(int(v) for v in q.split(":")) for q in t[-1][len("calls="):].split(";") if q and q != "-"] if t[-1].startswith("calls=") else []
+        if len(blocks) != len(calls) or len(calls) != 3:
+            continue
+        parts = sc.split(";")
+        plan = [("seqs", parse_seqs(parts[0][1:]), None), ("ret", [], (1 << 64) - 1), ("seqs", parse_seqs(parts[2][1:]), None)]
+        r = producer_frame_line(env, i, parse_applied(t[2]), 1, calls, plan, blocks)
+        if r:
+            flines.append(r[0])
+            fmeta[i] = (dict(kind="producer", params=p, script=sc, input_hex=x.hex(), fallback_blocks=[1]), r[1], blocks)
+    fout = env.model(flines) if flines else {}
+    for i, (rp, hists, blocks) in fmeta.items():
+        if judge_producer_frame(env, i, rp, fout.get(i + "~f", "MISSING"), hists, blocks):
+            env.ctx.count(("producer-frame-fallback-history", blocks[1]["type"] == 2, blocks[2]["type"] == 2), nontrivial=True)
 
 
 def run_producer(env, rng, n):
@@ -1839,6 +2111,21 @@ def run_producer(env, rng, n):
         if "calls" not in c:
             continue
         judge_producer(env, c, mout, mres.get(c["id"]))
+    # (round 3) the whole frame through producer_frame_fb: history threaded by the model across producer blocks, blocks that
+    # fell back to the internal parser (fallback_history) and blocks emitted raw / RLE
+    flines, fmeta = [], {}
+    for c in cases:
+        if not c.get("frame_tie"):
+            continue
+        r = producer_frame_line(env, c["id"], c["ap"], c["fb"], c["calls"], c["plan"], c["cblocks"])
+        if r:
+            flines.append(r[0])
+            fmeta[c["id"]] = (c, r[1])
+    fout = env.model(flines) if flines else {}
+    for cid, (c, hists) in fmeta.items():
+        if judge_producer_frame(env, cid, c["frame_tie"], fout.get(cid + "~f", "MISSING"), hists, c["cblocks"]):
+            ctx.count(("producer-frame", len(c["frame_tie"]["fallback_blocks"]) > 0, min(len(c["calls"]), 4),
+                       any(b["type"] != 2 for b in c["cblocks"])), nontrivial=len(c["calls"]) > 1)
 
 
 def judge_producer(env, c, mout, rres):
@@ -1932,6 +2219,7 @@ def judge_producer(env, c, mout, rres):
             return
     ctx.count(sig + ("ok", min(len(calls), 3)))
     ctx.cov["traces_validated_against_impl"] += 1
+    c["frame_tie"] = dict(rp, fallback_blocks=[k for k, v in enumerate(verdicts) if v == "FALLBACK"])
 
 
 # --------------------------------------------------------------------------------------------------
@@ -1998,6 +2286,7 @@ def run(ctx):
     producer_huge_lengths(env)
     detect_producer_position(env)
     producer_many_short(env, rng)
+    producer_splitter_adversarial(env, rng)
     producer_fallback_history(env, rng, 12 if quick else 100)
     run_producer(env, rng, 60 if quick else 600)
     run_context_histories(env, rng, 24 if quick else 200)
